@@ -105,6 +105,10 @@ func (h *clientConnectionHandler) onConnectionAccepted(connection *CqlServerConn
 		log.Trace().Msgf("%v: client accepted: %v", h, connection.conn.RemoteAddr())
 		h.connectionsLock.Lock()
 		defer h.connectionsLock.Unlock()
+		// check again under the lock: close() replaces the channels below while holding it
+		if h.isClosed() {
+			return fmt.Errorf("%v: handler closed", h)
+		}
 		holder, found := h.connections[clientAddr]
 		if found {
 			holder.conn = connection
